@@ -79,6 +79,7 @@ type tsched struct {
 	yields  int
 	swtch   int
 	last    int
+	cur     int
 	history []int
 }
 
@@ -184,6 +185,15 @@ func runInterleaved(ex *C14Extra, cov *Cov) ([]*taskState, []*stack.Snapshot, *t
 		sc.alive[i] = true
 		tasks[i] = &taskState{id: i}
 	}
+	// The yield hook parks the task of the CALLING goroutine, whichever stream
+	// object it was reached through: a library that (wrongly) shares a reader
+	// between two calls makes one task read through another task's SimReader.
+	// Only the token holder runs, so whoever calls yield IS the current task.
+	yieldAny := func() {
+		me := sc.cur
+		sc.parked <- me
+		<-sc.resume[me]
+	}
 	for i := 0; i < n; i++ {
 		i := i
 		t := tasks[i]
@@ -195,10 +205,7 @@ func runInterleaved(ex *C14Extra, cov *Cov) ([]*taskState, []*stack.Snapshot, *t
 				}
 				sc.parked <- -i - 1
 			}()
-			yield := func() {
-				sc.parked <- i
-				<-sc.resume[i]
-			}
+			yield := yieldAny
 			for _, op := range ex.Tasks[i] {
 				yield() // call boundary
 				t.runOp(op, ex, shared, yield)
@@ -226,6 +233,7 @@ func runInterleaved(ex *C14Extra, cov *Cov) ([]*taskState, []*stack.Snapshot, *t
 		}
 		sc.last = pick
 		sc.yields++
+		sc.cur = pick
 		sc.resume[pick] <- struct{}{}
 		id := <-sc.parked
 		if id < 0 {
@@ -502,8 +510,10 @@ func init() {
 		Assumptions: []string{"tasksim interleaves at I/O and call boundaries only; memory-access-level races are only sought by the uncontrolled -race stage, which is labelled as not simulated", "the HTML creation-time line is masked"},
 		Real:        []string{"stack.ScanSnapshot", "Snapshot.Aggregate", "Aggregated.ToHTML", "Snapshot.ToHTML"},
 		Stubs:       []string{"task scheduler (token passing, seeded picks)", "io.Reader/io.Writer of every task"},
-		ShrinkBudget: 400,
-		Post:         postC14,
+		ShrinkBudget:  400,
+		Post:          postC14,
+		WorkerProcs:   "1",
+		SelfTestProcs: []string{"1", "1"},
 	})
 }
 
@@ -584,3 +594,4 @@ func RaceStageC14(seed uint64, rounds int) []*Violation {
 func postC14(seed uint64, tier string, cov *Cov) ([]*Violation, map[string]any, error) {
 	return runRaceStage("C14", seed, tier)
 }
+
